@@ -479,7 +479,10 @@ func errorsIs(w *Worker, fr *frame, args []Value) (Value, bool) {
 			}
 		}
 		// Unwrap() error
-		f := w.E.Prog.LookupMethod(err.T, nil, "Unwrap")
+		var f *ssa.Function
+		if w.E.Prog.MethodSets.MethodSet(err.T).Lookup(nil, "Unwrap") != nil {
+			f = w.E.Prog.LookupMethod(err.T, nil, "Unwrap")
+		}
 		if f == nil || f.Signature.Results().Len() != 1 {
 			return mkBool(false), true
 		}
